@@ -132,6 +132,19 @@ def strip_oracle(text, big, d):
     return None
 
 
+def debug_runs():
+    """runs of 1-4 adjacent debugging operations (the print-a-label-then-a-register idiom) before, inside and after loops
+    and forward skips that use relative branches to labels, register branches, CALL and SET of labels"""
+    dbg = ['print("x = ")', "print_reg(R1)", 'println("!")', "print_reg(R2)"]
+    out = []
+    for n in (1, 2, 3, 4):
+        run = "\n".join(dbg[:n])
+        out.append("SET(R1, 3)\n{0}\nLABEL(loop)\nDEC(R1, 1)\n{0}\nBNZR(loop)\nSET(R2, 5)\nHALT()\n".format(run))
+        out.append("SET(R1, 0)\n{0}\nFLAGS(R1)\nBZR(skip)\nSET(R6, 9)\n{0}\nLABEL(skip)\nSET(R7, 1)\n{0}\nBRR(end)\nSET(R7, 2)\nLABEL(end)\nHALT()\n".format(run))
+        out.append("{0}\nSET(R1, 2)\nLABEL(top)\n{0}\nDEC(R1, 1)\nBNZ(top)\nCALL(FP_alt, f)\nHALT()\nLABEL(f)\n{0}\nINC(R3, 1)\nRETURN(FP_alt, PC_ret)\n".format(run))
+    return out
+
+
 def check(seed, n):
     violations = []
     evals = 0
@@ -139,8 +152,12 @@ def check(seed, n):
     seen = set()
     d = scratch_dir()
     try:
-        for k in range(n):
-            text, fs = proggen.generate(seed * 5003 + k, wild=False, debug_ops=(k % 2 == 0), strings_wide=(k % 5 == 0))
+        planned = debug_runs()
+        for k in range(n + len(planned)):
+            if k < len(planned):
+                text, fs = planned[k], ["debug-runs"]
+            else:
+                text, fs = proggen.generate(seed * 5003 + k, wild=False, debug_ops=(k % 2 == 0), strings_wide=(k % 5 == 0))
             big = k % 4 == 1
             for f in fs:
                 feats[f] = feats.get(f, 0) + 1
